@@ -152,7 +152,10 @@ def _make_sub(is_max):
                     raise Divergence(f"real {label} returned {p}, unique optimum is {t[0]}")
             return res
         # substitution: consume exactly what the real function consumes
-        random_state.random(a.shape)
+        if isinstance(random_state, TapeRNG):
+            random_state.raw_random(a.shape)
+        else:
+            random_state.random(a.shape)
         ties, out_shape = _tie_sets(a, kw, is_max)
         picks = []
         for t in ties:
@@ -207,9 +210,9 @@ def install():
     _STATE["orig_crs"] = ocrs
 
     def check_random_state(random_state, seed_multiplier=None):
-        rng = _STATE["rng"]
-        if rng is not None and seed_multiplier is not None and random_state is not None:
-            return rng
+        fac = _STATE["rng"]
+        if fac is not None and seed_multiplier is not None and random_state is not None:
+            return fac(ocrs(random_state, seed_multiplier))
         return ocrs(random_state, seed_multiplier)
 
     check_random_state._verif_sub = True
@@ -235,12 +238,15 @@ def ties(tape, mode="substitute"):
 
 
 @contextlib.contextmanager
-def rng_override(rng):
+def rng_override(factory):
+    """While active, the per-query generator that pool strategies derive via
+    check_random_state(random_state, seed_multiplier) is passed through
+    `factory` (e.g. lambda rs: TapeRNG.like(rs, scripted=('choice',)))."""
     install()
     old = _STATE["rng"]
-    _STATE["rng"] = rng
+    _STATE["rng"] = factory
     try:
-        yield rng
+        yield factory
     finally:
         _STATE["rng"] = old
 
@@ -261,97 +267,146 @@ def _orderings(n, full_upto=4):
     return out
 
 
+class Unobservable(Exception):
+    """A real draw cannot be mapped back to a tape answer (conformance runs
+    skip the case)."""
+
+
 class TapeRNG(np.random.RandomState):
-    """A seeded RandomState whose scripted draws consult a tape.
+    """A real RandomState (same stream as the generator it was made from)
+    whose *scripted* draws consult the tape. `scripted` is a subset of
+    {'uniform', 'normal', 'choice'}:
 
-    * random / random_sample / rand with a vector shape (size n >= 2):
-      *ordering mode* - one choice point selecting a permutation of the n
-      equally spaced values (k+0.5)/n.
-    * scalar draws (size None or 1 element): *region mode* - one choice point
-      over `self.scalars`, a list of representative values the harness
-      derived from the thresholds of the configuration (default 3 values).
-    * normal(loc, scale): region mode over loc + scale * self.normals.
-    * choice(a, size, replace=False, p): sequential choice among entries with
-      positive probability.
-    Everything else falls through to the seeded generator. Deep copies share
-    the tape."""
+    * 'uniform': random / random_sample / rand. A vector (size n >= 2) is in
+      *ordering mode*: one choice point selecting a permutation of the n
+      equally spaced values (k+0.5)/n. A scalar is in *region mode*: one
+      choice point over `self.scalars`, representative values the harness
+      derived from the thresholds of the configuration.
+    * 'normal': normal(loc, scale) scalar, region mode over
+      loc + scale * self.normals.
+    * 'choice': choice(a, size, replace=False, p): sequential choice among
+      the entries with positive probability.
+    Every scripted draw first performs the real draw (so the underlying
+    stream advances exactly as in an unscripted run and invalid arguments
+    raise what the real generator raises), then substitutes the tape's
+    answer. In observation mode the real answer is returned and recorded on
+    the tape. Everything else falls through. Deep copies share the tape."""
 
-    def __init__(self, seed=0, tape=None, scalars=(0.05, 0.5, 0.95), normals=(0.0, -1.0, 1.0), full_upto=4):
+    def __init__(self, seed=0, tape=None, scripted=("choice",), scalars=(0.05, 0.5, 0.95), normals=(0.0, -1.0, 1.0), full_upto=4):
         super().__init__(seed)
         self.tape = tape
+        self.scripted = tuple(scripted)
         self.scalars = tuple(scalars)
         self.normals = tuple(normals)
         self.full_upto = full_upto
         self.log = []
 
+    @classmethod
+    def like(cls, rs, **kw):
+        r = cls(0, **kw)
+        r.set_state(rs.get_state())
+        return r
+
     def __deepcopy__(self, memo):
-        new = TapeRNG(0, self.tape, self.scalars, self.normals, self.full_upto)
+        new = TapeRNG(0, self.tape, self.scripted, self.scalars, self.normals, self.full_upto)
         new.set_state(self.get_state())
         new.log = self.log
         return new
 
     def __reduce__(self):
-        return (_rebuild_taperng, (self.get_state(), self.scalars, self.normals, self.full_upto))
+        return (_rebuild_taperng, (self.get_state(), self.scripted, self.scalars, self.normals, self.full_upto))
 
     def _tape(self):
         return self.tape if self.tape is not None else _STATE["tape"]
 
-    def _uniform(self, shape):
-        n = int(np.prod(shape)) if shape is not None and shape != () else 1
+    def _observe(self):
+        return _STATE["mode"] == "observe"
+
+    def _uniform(self, real):
         tape = self._tape()
-        if tape is None:
-            return None
-        if n <= 1:
+        if tape is None or "uniform" not in self.scripted or getattr(self, "_busy", False):
+            return real
+        shape = np.shape(real)
+        n = int(np.prod(shape)) if shape != () else 1
+        if n == 0:
+            return real
+        if n == 1:
+            if self._observe():
+                v = float(np.ravel(real)[0])
+                # region = index of the nearest representative on the same side of every threshold
+                # (the harness supplies thresholds via self.regions when it wants observation)
+                regions = getattr(self, "regions", None)
+                if regions is None:
+                    raise Unobservable("scalar draw without region map")
+                tape.points.append((len(self.scalars), int(regions(v)), "u-scalar"))
+                return real
             v = self.scalars[tape.choose(len(self.scalars), "u-scalar")]
             self.log.append(("u", v))
-            return np.full(shape, v) if shape not in (None, ()) else float(v)
+            return np.full(shape, v) if shape != () else float(v)
         perms = _orderings(n, self.full_upto)
+        if self._observe():
+            perm = tuple(int(x) for x in np.argsort(np.argsort(np.ravel(real))))
+            if perm not in perms:
+                raise Unobservable("ordering outside the reduced alphabet")
+            tape.points.append((len(perms), perms.index(perm), "u-order%d" % n))
+            return real
         perm = perms[tape.choose(len(perms), "u-order%d" % n)]
         vals = (np.asarray(perm, dtype=float) + 0.5) / n
         self.log.append(("uvec", tuple(perm)))
         return vals.reshape(shape)
 
+    def raw_random(self, size=None):
+        """unscripted uniform draw (used by the tie-level substitutes)"""
+        return np.random.RandomState.random_sample(self, size)
+
     def random_sample(self, size=None):
-        shape = size if size is None or isinstance(size, tuple) else (size,)
-        r = self._uniform(shape)
-        if r is None:
-            return super().random_sample(size)
-        return r
+        return self._uniform(super().random_sample(size))
 
     random = random_sample
 
     def rand(self, *dims):
-        r = self._uniform(tuple(dims))
-        if r is None:
-            return super().rand(*dims)
-        return r
+        return self._uniform(super().rand(*dims))
 
     def normal(self, loc=0.0, scale=1.0, size=None):
+        self._busy = True
+        try:
+            real = super().normal(loc, scale, size)
+        finally:
+            self._busy = False
         tape = self._tape()
-        if tape is None or size not in (None, 1, (1,)):
-            return super().normal(loc, scale, size)
+        if tape is None or "normal" not in self.scripted or size not in (None, 1, (1,)) or np.ndim(loc) or np.ndim(scale):
+            return real
+        if self._observe():
+            raise Unobservable("normal draw")
         z = self.normals[tape.choose(len(self.normals), "normal")]
         v = loc + scale * z
         self.log.append(("n", v))
         return v if size is None else np.array([v])
 
     def choice(self, a, size=None, replace=True, p=None):
+        self._busy = True  # the C implementation calls self.random_sample etc.
+        try:
+            real = super().choice(a, size=size, replace=replace, p=p)
+        finally:
+            self._busy = False
         tape = self._tape()
-        if tape is None or replace:
-            return super().choice(a, size=size, replace=replace, p=p)
-        pool = np.arange(a) if np.isscalar(a) or np.ndim(a) == 0 else np.asarray(a)
+        if tape is None or replace or "choice" not in self.scripted:
+            return real
+        pool = np.arange(a) if np.ndim(a) == 0 else np.asarray(a)
         n = len(pool)
-        if p is None:
-            w = np.ones(n)
-        else:
-            w = np.asarray(p, dtype=float)
-            # the real generator validates p; keep its error behaviour
-            if w.shape != (n,) or np.any(np.isnan(w)) or np.any(w < 0) or abs(w.sum() - 1) > 1e-8:
-                return super().choice(a, size=size, replace=replace, p=p)
+        w = np.ones(n) if p is None else np.asarray(p, dtype=float)
         k = 1 if size is None else int(np.prod(size))
-        if k > n or (p is not None and k > np.count_nonzero(w > 0)):
-            return super().choice(a, size=size, replace=replace, p=p)
         alive = [i for i in range(n) if w[i] > 0]
+        if self._observe():
+            vals = [x for x in np.ravel(real)]
+            pl = pool.tolist()
+            if len(set(pl)) != len(pl):
+                raise Unobservable("choice over non-unique values")
+            for v in vals:
+                pos = pl.index(v)
+                tape.points.append((len(alive), alive.index(pos), "choice")) if len(alive) > 1 else None
+                alive.remove(pos)
+            return real
         picks = []
         for _ in range(k):
             c = tape.choose(len(alive), "choice")
@@ -360,10 +415,10 @@ class TapeRNG(np.random.RandomState):
         res = pool[np.array(picks, dtype=int)]
         if size is None:
             return res[0]
-        return res.reshape(size)
+        return res.reshape(np.shape(real))
 
 
-def _rebuild_taperng(state, scalars, normals, full_upto):
-    r = TapeRNG(0, None, scalars, normals, full_upto)
+def _rebuild_taperng(state, scripted, scalars, normals, full_upto):
+    r = TapeRNG(0, None, scripted, scalars, normals, full_upto)
     r.set_state(state)
     return r
